@@ -32,6 +32,21 @@ external-interference covariances == explicit entry-wise sums, Hermitian, PSD;
 solver == oracle with an independently derived full filter inv(W^H H_kk F) W^H;
 solver == channel object fed the solver's own full_F / full_W; dB = 10 log10;
 sum capacity = sum log2(1 + SINR); calc_shannon_sum_capacity.
+
+Part H (object reuse, engine E3): for every (class, layout, Ns, member) of hist_configs() a
+breadth-first exploration of every event history up to the depth bound over ONE channel object
+and ONE solver bound to it.  Events: set_pathloss(None | P1(,E1) | P2(,E2)), noise_var = None | 0 |
+0.1 | 2, init_from_channel_matrix(other family member, same layout), randomize (the library's
+random draw is scripted through the seam multiuser.randn_c_RS), set_precoders(F=a|b, full_F=b),
+set_receive_filters(W=a | W_H=b), P = None | unequal vector, and "touch" IC | JP | solver (evaluate
+the library so that its lazily filled caches are warm).  In EVERY reached state all
+state-dependent relations above (SINR IC and JP, Q, B_kl, external-interference covariances,
+solver SINR / dB / sum capacity / Q / B_kl, solver vs channel object) are evaluated against the
+oracle computed from the reference model of the history (current path loss, noise, channel
+member, precoders, filters, powers).  States are merged only if the real objects agree
+attribute for attribute, caches included.  A history violation is reported once, for the shortest failing
+prefix, with signature (hist, plain|extint, wrong_after_<last event of that prefix>, <most
+primitive failing relation>).
 """
 import itertools
 import math
@@ -45,7 +60,8 @@ from vmc.report import Check
 
 PID = "C11"
 LEVEL = "exploration"
-ENGINE = "E1 exhaustive product of a finite configuration alphabet x generic matrix family"
+ENGINE = ("E1 exhaustive product of a finite configuration alphabet x generic matrix family + "
+          "E3 BFS over event histories of one reused channel object and bound solver")
 RULE = ("every (channel class, NtE, antenna layout, Ns tuple in {1,2}^K, path loss unset|generic, "
         "noise None|0|0.1|2, pe default|0.5|4, IC|JP, generic family member s) through calc_SINR / "
         "calc_JP_SINR / calc_Q / calc_JP_Q / B_kl helpers of the channel object, and x (solver class, "
@@ -54,7 +70,10 @@ RULE = ("every (channel class, NtE, antenna layout, Ns tuple in {1,2}^K, path lo
         "calc_SINR / calc_SINR_in_dB / calc_sum_capacity / calc_Q; oracle = scalar nested-loop "
         "|u^H H f|^2 sums from the raw channel matrix, path loss, precoder and filter columns. "
         "A case is non-trivial when every stream has non-zero desired power and a non-zero "
-        "denominator; distinct = distinct "
+        "denominator; Part H: BFS over every history (<= depth) of {set_pathloss None|P1|P2, "
+        "noise_var, init_from_channel_matrix(other member), randomize(scripted), set_precoders, "
+        "set_receive_filters, P=, touch IC|JP|solver} on ONE channel object + bound solver, all "
+        "relations checked in every state against the oracle of the current model state; distinct = distinct "
         "configuration tuple (incl. family member)")
 
 # tolerance: |lib - ref| <= C_TOL * 2^-52 * kappa * max(|lib|,|ref|); kappa = 1 + SINR_ref is the
@@ -63,6 +82,7 @@ RULE = ("every (channel class, NtE, antenna layout, Ns tuple in {1,2}^K, path lo
 C_TOL = 2000.0
 KAPPA_MAX = 1e7         # cases whose cancellation/condition factor exceeds this are excluded + counted
 FACTORS = (2.0, -0.5j, 1e-3)
+SOLVE_SAFETY = 8.0      # relations through the solver's solve(W^H H F, W^H): kappa = 8 cond(W^H H F) (1+SINR)
 
 LAYOUTS_QUICK = [([2, 2], [2, 2]), ([2, 3], [3, 2]), ([2, 2, 3], [2, 3, 2])]
 LAYOUTS_THOROUGH = LAYOUTS_QUICK + [([3, 3, 3], [3, 3, 3]), ([4, 2], [2, 4]),
@@ -700,10 +720,10 @@ def run_solver_case(case, chk, live=None):
             for k in range(K):
                 Uk, cd = oracle_full_filter(ref, fullF, W, k)
                 Ufull.append(Uk)
-                conds.append(cd)
+                conds.append(SOLVE_SAFETY * cd)
         ref_sinr, parts = ref.sinr(fullF, Ufull, False)
         record_outcomes(chk, case, ref_sinr, parts)
-        chk.outcome("cond_WHF_decade", decade(max(conds)))
+        chk.outcome("cond_WHF_decade", decade(max(conds) / (SOLVE_SAFETY if not (live and live["stale"]) else 1.0)))
 
         got = sol.calc_SINR()
         if not check_shape(chk, view, "calc_SINR", case, got, Ns):
@@ -874,9 +894,11 @@ def hist_configs(tier):
     thorough = tier == "thorough"
     classes = [("plain", None), ("ext", 1), ("ext", [1, 1])]
     out = []
-    for chan, NtE in classes:
-        out.append((chan, NtE, [2, 2], [2, 2], [2, 1], 0, "full", 2))
-        out.append((chan, NtE, [2, 2], [2, 2], [2, 1], 0, "core", 3))
+    out.append(("ext", 1, [2, 2], [2, 2], [2, 1], 0, "full", 3))
+    out.append(("plain", None, [2, 2], [2, 2], [2, 1], 0, "full", 2))
+    out.append(("plain", None, [2, 2], [2, 2], [2, 1], 0, "core", 3))
+    out.append(("ext", [1, 1], [2, 2], [2, 2], [2, 1], 0, "full", 2))
+    out.append(("ext", [1, 1], [2, 2], [2, 2], [2, 1], 0, "core", 3))
     if thorough:
         for chan, NtE in classes + [("ext", 2)]:
             for Nr, Nt, Ns in (([2, 2], [2, 2], [1, 2]), ([2, 2, 3], [2, 3, 2], [1, 2, 2])):
@@ -1055,7 +1077,67 @@ def hist_build(cfg, data, hist):
     return st
 
 
+REL_PRIORITY = ["calc_cov_matrix_extint_without_noise", "calc_cov_matrix_extint_plus_noise",
+                "calc_Q", "calc_JP_Q", "Bkl_cov_matrix_all_l", "JP_Bkl_cov_matrix_all_l",
+                "calc_SINR_vs_first_principles", "calc_JP_SINR_vs_first_principles",
+                "calc_SINR_vs_first_principles_own_filters", "solver_vs_channel_object"]
+
+
 def hist_observe(chk, cfg, data, hist, st):
+    """observe the state; on a violation find the shortest failing prefix of the history and report
+    ONE violation naming the event after which the object is wrong and the most primitive
+    relation that fails (the complete list of failing relations goes into the message)"""
+    tmp = chk.child_check()
+    _hist_observe_raw(tmp, cfg, data, hist, st)
+    state = tmp.state()
+    viol = state["violations"]
+    state["violations"] = {}
+    chk.absorb(state)
+    if not viol:
+        return
+    def failing(h):
+        """violations observed in the state reached by history h (None if it holds)"""
+        t2 = chk.child_check()
+        try:
+            _hist_observe_raw(t2, cfg, data, h, hist_build(cfg, data, h))
+        except Exception as e:      # noqa - a history that cannot even be built fails
+            t2.fail(("hist", "exception", type(e).__name__), None, observed=repr(e))
+        return t2.violations or None
+
+    # minimal witness: shortest failing prefix, then drop every event that is not needed
+    pre, v2 = tuple(hist), viol
+    for i in range(len(hist)):
+        got = failing(tuple(hist[:i]))
+        if got:
+            pre, v2 = tuple(hist[:i]), got
+            break
+    i = 0
+    while i < len(pre) - 1:
+        cand = pre[:i] + pre[i + 1:]
+        got = failing(cand)
+        if got:
+            pre, v2 = cand, got
+        else:
+            i += 1
+    rels = []
+    for v in v2.values():
+        sg = v["sig"]
+        rels.append((sg[0].split("|")[-1], sg[1] if sg[1] != "exception" else "|".join(sg[1:])))
+    names = sorted(set(r for _, r in rels))
+    primary = next((r for r in REL_PRIORITY if r in names), names[0])
+    culprit = "constructed"
+    if pre:
+        kind, arg = pre[-1]
+        culprit = EVENT_NAME.get(kind, "touch_%s" % arg)
+    first = sorted(v2.values(), key=lambda v: (v["sig"][1] != primary, v["sig"]))[0]
+    chk.fail(("hist", "extint" if cfg["chan"] == "ext" else "plain", "wrong_after_" + culprit, primary),
+             dict(cfg, hist=[list(e) for e in pre]), observed=first["observed"],
+             expected=first["expected"],
+             msg="minimal failing sub-history of %r; failing relations: %s"
+                 % ([list(e) for e in hist], sorted(set("%s:%s" % r for r in rels))))
+
+
+def _hist_observe_raw(chk, cfg, data, hist, st):
     """all state-dependent relations for the CURRENT state against the first-principles oracle"""
     m = hist_model(hist)
     ext = cfg["chan"] == "ext"
@@ -1064,14 +1146,13 @@ def hist_observe(chk, cfg, data, hist, st):
     mk = (m["mem"], m["pl"], m["noise"], m["F"], m["W"], m["P"], m["cached"], m["stale"])
     sub = dict(cfg, hist=[list(e) for e in hist], noise=NOISES[m["noise"]], pl=m["pl"],
                fmode="hist", wmode="hist", int_layout=False, model_key=repr(mk))
-    tag = "after_" + m["last"]
     cname = "chan_plain" if not ext else "chan_extint"
     for var, pe in (("IC", 0.5 if ext else None), ("JP", None)):
         run_chan_case(dict(sub, var=var, pe=pe), chk,
-                      live=dict(view="hist|%s_%s|%s" % (cname, var, tag), inp=inp, ch=st.ch))
+                      live=dict(view="hist|%s_%s" % (cname, var), inp=inp, ch=st.ch))
     Fn, P, fullF = model_precoders(m, data)
     run_solver_case(dict(sub, var=None, pe=None), chk,
-                    live=dict(view="hist|%s|%s" % ("solver_extint" if ext else "solver", tag),
+                    live=dict(view="hist|%s" % ("solver_extint" if ext else "solver"),
                               inp=inp, ch=st.ch, sol=st.sol, Fn=Fn, P=P, fullF=fullF,
                               W=data["W"][m["W"]], stale=m["stale"]))
     return mk
@@ -1146,13 +1227,24 @@ def main(chk: Check):
     chk.assume("calc_SINR_old is documented as deprecated and 'not the correct way to calculate "
                "the SINR'; it is compared only where its formula coincides with the definition "
                "(K=2, one stream per user, unit powers)")
-    chk.assume("every channel object is fresh (init_from_channel_matrix, then set_pathloss, then "
-               "noise_var); cache coherence under setter histories belongs to C08")
+    chk.assume("Part 1 builds a fresh channel object per case (init_from_channel_matrix, then "
+               "set_pathloss, then noise_var); object reuse is covered by Part H: every event "
+               "history up to the stated depth over ONE channel object and ONE bound solver, with "
+               "all SINR / Q / covariance / dB / capacity relations evaluated in every reached state")
+    chk.assume("Part H: a solver is not notified when its channel object changes; when its derived "
+               "full_W_H was cached before a channel change (solver touch, then set_pathloss / "
+               "init / randomize, no solver setter in between) the reported SINR is compared with "
+               "first principles for the filter the solver itself reports (counted as "
+               "hist_solver_observations_with_reported_filter); precoders, powers, channel, path "
+               "loss and noise always come from the reference model of the history")
+    chk.assume("Part H: randomize is driven through the seam multiuser.randn_c_RS (scripted to "
+               "return a family member); states are merged only when the digest of every attribute "
+               "of the real channel and solver objects (caches included) and the model state agree")
     chk.assume("matrices are members of the closed-form generic family (two superposed members "
                "with seed-rotated offsets); streams Ns_k <= min(Nr_k, Nt_k)")
     chk.extra["tolerance_c"] = C_TOL
     chk.extra["tolerance_rule"] = ("|lib-ref| <= c*2^-52*kappa*max(|lib|,|ref|), kappa = "
-                                   "(signal+denominator)/denominator [x cond(W^H H_kk F) for "
+                                   "(signal+denominator)/denominator [x 8 cond(W^H H_kk F) for "
                                    "solver relations through solve()]; matrices: c*2^-52*max|operand|")
     chk.extra["kappa_max"] = KAPPA_MAX
     chk.extra["filter_rescale_factors"] = [repr(f) for f in FACTORS]
@@ -1179,6 +1271,8 @@ def main(chk: Check):
     chk.require_outcomes("sinr_decade", 3)
     chk.require_outcomes("active_terms", 4)
     chk.require_outcomes("configuration", 100)
+    chk.require_outcomes("history_model_state", 200)
+    chk.require_outcomes("history_depth", 2)
 
 
 def replay(case, chk: Check):
